@@ -234,8 +234,9 @@ def _rewrite_try_for_each(text: str, rep: str):
     closure on every item in order, stop at the first Err and return it):
        `let NAME = { let vrecv = RECV; let vf = |x: ARGTY| -> (q: RETTY) ENSURES { BODY }; let mut vst: RETTY = Ok(());
                      for x in itf: vrecv { vst = vf(x); if vst.is_err() { break; } } vst };`
-    `rep` = "ARGTY ;; RETTY ;; ENSURES" (the closure's types and its contract, PROVED from BODY); same lines; the loop
-    gets its invariant through the unit's `loops`."""
+    A trailing `.and_then(|()| E)` (Result::and_then on the unit result) becomes `match vst { Ok(()) => E, Err(e) => Err(e) }`.
+    `rep` = "ARGTY ;; RETTY ;; ENSURES" (the closure's types -- replacing any annotation written in the source -- and
+    its contract, PROVED from BODY); same lines; the loop gets its invariant through the unit's `loops`."""
     argty, retty, ens = [t.strip() for t in rep.split(";;")]
     cnt = 0
     pos = 0
@@ -246,23 +247,35 @@ def _rewrite_try_for_each(text: str, rep: str):
             break
         op = k + len(".try_for_each")
         cl = match_brace(m, op)
-        cm = re.match(r"\s*\|\s*(?P<x>\w+)\s*\|", m[op + 1:cl])
+        cm = re.match(r"\s*\|\s*(?P<x>\w+)\s*(?::[^|]*)?\|\s*(?:->[^{]*(?=\{))?", m[op + 1:cl])
         s = m.rfind("let ", 0, k)
         lm = re.match(r"let\s+(?:mut\s+)?\w+\s*(?::[^=;]+)?=\s*", m[s:]) if s >= 0 else None
-        if not cm or not lm or ";" in m[s:k] or not m[cl + 1:].lstrip().startswith(";"):
+        if not cm or not lm or ";" in m[s:k]:
+            pos = k + 1
+            continue
+        end = cl + 1
+        tail = "vst"
+        am = re.match(r"\s*\.and_then\(\s*\|\s*\(\)\s*\|", m[end:])
+        if am:
+            aop = end + m[end:].index("(")
+            acl = match_brace(m, aop)
+            tail = "match vst { Ok(()) => %s, Err(e) => Err(e) }" % text[end + am.end():acl].strip()
+            lead = text[end:end + am.start()]
+            end = acl + 1
+        if not m[end:].lstrip().startswith(";"):
             pos = k + 1
             continue
         recv = text[s + lm.end():k]
         body = text[op + 1 + cm.end():cl].rstrip()
         x = cm.group("x")
-        new = "%s{ let vrecv = %s; let vf = |%s: %s| -> (q: %s) %s { %s }; let mut vst: %s = Ok(()); for %s in itf: vrecv { vst = vf(%s); if vst.is_err() { break; } } vst }" % (
-            text[s:s + lm.end()], recv, x, argty, retty, ens, body, retty, x, x)
-        old = text[s:cl + 1]
+        new = "%s{ let vrecv = %s; let vf = |%s: %s| -> (q: %s) %s { %s }; let mut vst: %s = Ok(()); for %s in itf: vrecv { vst = vf(%s); if vst.is_err() { break; } } %s }" % (
+            text[s:s + lm.end()], recv, x, argty, retty, ens, body, retty, x, x, tail)
+        old = text[s:end]
         need = old.count("\n") - new.count("\n")
         if need < 0:
             pos = k + 1
             continue
-        text = text[:s] + new + "\n" * need + text[cl + 1:]
+        text = text[:s] + new + "\n" * need + text[end:]
         pos = s + len(new)
         cnt += 1
     return text, cnt
